@@ -120,7 +120,11 @@ fn check_full(spec: &ProbSpec, sp: &Span, m: Meth, rtol: f64, atol_rel: f64, rk4
     let grid: Vec<f64> = idx.iter().map(|&k| log.ev_t[k]).collect();
     let eend: Vec<f64> = idx.iter().map(|&k| max_abs_diff(&log.ev_y[k], &prob.exact(log.ev_t[k]))).collect();
     let ymax = idx.iter().fold(0.0f64, |mm, &k| mm.max(inf_norm(&log.ev_y[k])));
-    let tolscale = atol + rtol * ymax;
+    let mut tolscale = atol + rtol * ymax;
+    if m == Meth::RADAU {
+        // the cubic collocation interpolant is held to RADAU5's internal tolerance 0.1*tol^(2/3)
+        tolscale = tolscale.max(crate::props::c01::radau_internal_tolscale(&[rtol], &[atol], &[ymax]));
+    }
     let kappa = prob.kappa();
     let rate = prob.rate_t();
     let mut worst: f64 = 0.0;
